@@ -976,6 +976,8 @@ def len_(ex, v, node):
     if isinstance(v, ModelObj):
         return v.m_len(ex)
     if isinstance(v, SymSeq):
+        if isinstance(v.len, z3.ExprRef) and not getattr(v, '_len_nonneg', False):
+            ex.assume(v.len >= 0)          # a list has a non-negative length
         if v.suffix:
             return SymVal('int', v.len + len(v.suffix))
         return SymVal('int', v.len)
